@@ -105,6 +105,12 @@ def run(ctx):
         if as_coord:
             ds = ds.set_coords(bvars)
         ctx.count(f'bounds_as_xarray_coordinate:{as_coord}')
+        # depth coordinates held as plain variables (no variable's `coordinates` attribute names them, or after reset_coords)
+        plain = [nm for nm in names if nm != dim and nm in ds.coords]
+        as_plain = bool(plain) and n % 3 == 1
+        if as_plain:
+            ds = ds.reset_coords(plain)
+        ctx.count(f'depth_coordinate_held_as_plain_variable:{as_plain}')
         via_ems = rng.random() < 0.5
         if via_ems:
             ems_names = [c.name for c in ds.ems.depth_coordinates]
@@ -195,7 +201,7 @@ def run(ctx):
             tags = [int(x) for x in out['level_tag'].values]
             bnames = {before[nm].attrs.get('bounds') for nm in names}
             for vn, v in before.data_vars.items():
-                if dim in v.dims and vn in out and vn not in bnames:
+                if dim in v.dims and vn in out and vn not in bnames and vn not in names:
                     want = v.isel({dim: tags})
                     got = out[vn]
                     if got.dims != want.dims or not numpy.array_equal(got.values, want.values, equal_nan=True):
